@@ -385,9 +385,11 @@ def leaves(P, f, o, through_loads=True, limit=400):
 
 
 # ---------- path-sensitive value of a local slot ----------
-def slot_value(view, alloca_id, upto_pos=None):
+def slot_value(view, alloca_id, upto_pos=None, outset=None):
     """term describing the content of an address-taken local at position upto_pos on this path:
-    ('stored', term) | ('outparam', callee srcname, call inst) | None"""
+    ('stored', term) | ('outparam', callee srcname, call inst) | None.
+    outset(view, call, argidx) -> 'always'|'never'|'sometimes' refines calls that receive the slot's address:
+    a callee that never assigns the out-parameter in the return class taken on this path is skipped."""
     P, f = view.P, view.f
     last = None
     for k, i in view.insts():
@@ -396,14 +398,33 @@ def slot_value(view, alloca_id, upto_pos=None):
         if i.op == "store" and P.strip(f, i.a[1]) == alloca_id:
             last = ("stored", P.term(f, view.resolve(i.a[0])), i)
         elif i.op == "call":
-            for a in i.a:
+            for ak, a in enumerate(i.a):
                 if P.strip(f, a) == alloca_id:
+                    if outset is not None and outset(view, i, ak) == "never":
+                        continue
                     name = P.srcname_of(i.callee) if i.callee else "icall"
                     last = ("outparam", name, i)
     return last
 
 
-def ret_value_term(view):
+def make_outset(ctx, P, cg):
+    def outset(view, call, ak):
+        res = set()
+        cls, conds = class_of_call(view, call)
+        for tname in cg.targets(view.f, call):
+            h = P.functions.get(tname)
+            if h is None:
+                return "sometimes"
+            res.add(out_set(ctx, P, cg, h, ak, cls, conds))
+        if res == {"never"}:
+            return "never"
+        if res == {"always"}:
+            return "always"
+        return "sometimes"
+    return outset
+
+
+def ret_value_term(view, outset=None):
     """term of the returned value on this path, local slots resolved path-sensitively"""
     P, f = view.P, view.f
     o = view.ret_operand()
@@ -419,7 +440,7 @@ def ret_value_term(view):
                 for k, j in view.insts():
                     if j.id == i.id:
                         pos = k
-                sv = slot_value(view, a, pos)
+                sv = slot_value(view, a, pos, outset)
                 if sv is None:
                     return ("uninit",)
                 return sv[:2] if sv[0] == "outparam" else sv[1]
@@ -447,6 +468,13 @@ def class_of_call(view, call):
         for c in conds:
             if c[0] == "null":
                 isnull = cv.ret_is_null() or cv.ret_const() == 0
+                if not isnull and cv.ret_const() is None:
+                    # returned value is not a constant: decided by a null test of the same value on the callee's path
+                    ro = cv.ret_operand()
+                    rt = cv.P.term(cv.f, ro) if ro is not None else None
+                    for (a, p) in cv.atoms:
+                        if a[0] == "cmp" and a[2] == rt and a[3] == ("null",):
+                            isnull = _poleq(a, p)
                 if isnull != c[1]:
                     return False
             elif c[0] == "truth":
